@@ -18,7 +18,7 @@ def headerDt (A : Op GRat) : String :=
 /-- code-model and specification dtype of the array a product with an operand of dtype `xdt`
 returns; without an operand (`to_dense`, indexing) the operator's own dtype.  The code-model value
 is the RECURSIVE dtype model of Model/MatmatDtype.lean (`Op.mmDt` for `A @ X`, `Op.rmmDt` for
-`X @ A`: what each class's `_matmat` / `_rmatmat` does with dtypes); `resdtPromote` is the round-2
+`X @ A`: what each class's `_matmat` / `_rmatmat` does with dtypes); `resdtPromote` (READ by treecheck.observations as an independent specification value of `resdt`) is the round-2
 value `promote_types(A.dtype, X.dtype)` (`Op.mmDtype`), equal to it on every `wf` tree
 (`C01_result_dtype_promote`). -/
 def resDt (A : Op GRat) (call : String) (j : Json) : E String := do
@@ -111,8 +111,18 @@ def handle (j : Json) : E String := do
         | .op B => "{\"kind\":\"op\",\"rows\":" ++ toString B.rows ++ ",\"cols\":" ++ toString B.cols ++ ",\"value\":" ++ showMat B.rows B.cols B.den.f ++ "}"
         | r => showRes r
       let bound := maxAbsMat A.rows A.cols A.absOp.td.f
-      -- `den`: the represented matrix, so that the harness can attribute a code/spec difference entry by entry
-      pure ("{" ++ pre ++ s!",\"code\":{showRes code},\"spec\":{specS},\"den\":{showMat A.rows A.cols A.den.f},\"absbound\":{bound}" ++ "}")
+      -- `den`: the represented matrix; `codeDense`: the code model's OWN dense matrix of the operand (`Op.td`, what
+      -- `A.to_dense()` computes - differs from `den` only under a tree-level clause); `tdIndex`: NumPy indexing of
+      -- `codeDense`.  With them the harness attributes a code/spec difference entry by entry: an entry is excused by a
+      -- tree-level clause only if the operand's own entry differs there and the answer inherits exactly that entry
+      -- `codeDenseR` / `tdIndexR`: the same through `X @ A` (`Op.rmm` on the identity): rows are read by `e_i @ A`
+      let showIdx (r : GRes GRat) : String := match r with
+        | .op B => "{\"kind\":\"op\",\"rows\":" ++ toString B.rows ++ ",\"cols\":" ++ toString B.cols ++ ",\"value\":" ++ showMat B.rows B.cols B.den.f ++ "}"
+        | r => showRes r
+      let tdS := showIdx (Op.npIndex A.rows A.cols A.td.f ids)
+      let tdR := (A.rmm A.rows (forceV A.rows A.rows eyeM).f).f
+      let tdRS := showIdx (Op.npIndex A.rows A.cols tdR ids)
+      pure ("{" ++ pre ++ s!",\"code\":{showRes code},\"spec\":{specS},\"den\":{showMat A.rows A.cols A.den.f},\"codeDense\":{showMat A.rows A.cols A.td.f},\"tdIndex\":{tdS},\"codeDenseR\":{showMat A.rows A.cols tdR},\"tdIndexR\":{tdRS},\"absbound\":{bound}" ++ "}")
   | c => throw s!"unknown call {c}"
 
 def main : IO Unit := driverMain handle
